@@ -117,6 +117,12 @@ class DiagonalOperator(EndomorphicOperator):
                 active_axes += self._domain.axes[space_index]
 
             self._ldiag = diagonal.val
+            # bring the axes of the diagonal into the order of the domain
+            # (`spaces` may list the sub-domains in any order)
+            dax = diagonal.domain.axes
+            perm = sum((tuple(dax[i]) for i in np.argsort(self._spaces)), ())
+            if perm != tuple(range(len(perm))):
+                self._ldiag = np.transpose(self._ldiag, perm)
             self._reshaper = [shp if i in active_axes else 1
                               for i, shp in enumerate(self._domain.shape)]
             self._ldiag = self._ldiag.reshape(self._reshaper)
